@@ -776,6 +776,17 @@ def _enumerate(ex, args, kwargs, node):
 
 @model("builtins.zip")
 def _zip(ex, args, kwargs, node):
+    # `a.tolist()` of a 1-D array iterates like the array itself (a fresh list of its elements) as long as nothing was
+    # appended to / stored into that list: one form for both spellings
+    def _as_array(a):
+        src = getattr(a, "from_array", None)
+        if isinstance(a, ListV) and isinstance(src, Num) and not a.items:
+            touched = any(e.kind in ("list_append", "list_extend", "list_store", "list_sort") and (e.data.get("lst") is a or e.data.get("target") is a) for e in ex.events)
+            if not touched:
+                return src
+        return a
+
+    args = [_as_array(a) for a in args]
     conc = [ex.concrete_items(a) for a in args]
     if all(c is not None for c in conc):
         if getattr(ex, "unroll_zip", False):
@@ -1074,6 +1085,10 @@ def _type(ex, args, kwargs, node):
     v = args[0]
     if isinstance(v, ObjV) and v.cls is not None:
         return ClassV(v.cls)
+    # the exact type of a Python-level container is known: `type(x) is np.ndarray` is False for a list / tuple / str / None
+    for k_, nm_ in ((ListV, "builtins.list"), (TupleV, "builtins.tuple"), (StrV, "builtins.str"), (NoneV, "builtins.NoneType"), (DictV, "builtins.dict")):
+        if isinstance(v, k_):
+            return ExtV(nm_)
     return OpaqueV(f"type({valkey(v)})")
 
 
